@@ -742,6 +742,26 @@ theorem nonvacuous_heap_run_refines :
     (ret := none) (h1 := exH8) ⟨reach exH7 3 5 (by decide), novalue exH7 _ rfl⟩ (by decide +kernel)
     (fun v hv => by cases hv) (by decide +kernel) rfl (by decide +kernel) (.nil _)
 
+/-- … AND THE DOCUMENTED PANIC: when such a history is followed by `l.MustSet(i, v)` on a list handle that
+    is live at `p`, the heap-level history panics EXACTLY WHEN the corresponding value-level history
+    (`… ++ [MustSet at p]`) does — out of range both panic, in range neither does. -/
+theorem heap_run_refines_panic (root : Addr) (h h1 : Heap) (ops : List HOp) (bops : List BOp) (d : AMap Node)
+    (hrun : HandleRun root h ops bops h1) (hi : Inv h) (hs : SibSep h root) (hrl : root < h.size)
+    (hd : abs h root = some (.cont d)) (l v : Addr) (i : Nat) (p : String) (vn : Node) (hp : p ≠ "")
+    (hlive : LiveAt h1 root l p) :
+    Ytk.Heap.hrun h (ops ++ [.listMustSet l i v]) = .panic ↔ brun d (bops ++ [.listMustSet p i vn]) = .panic :=
+  hrun.refines_panic hi hs hrl hd vn hp hlive
+
+/-- after the history above `l.MustSet(5, #4)` on the one-item list #6 (live at "a.l") panics in both models,
+    `l.MustSet(0, #4)` in neither -/
+theorem nonvacuous_heap_run_panic :
+    LiveAt exH8 3 6 "a.l" ∧
+    Ytk.Heap.hrun exB (exHOps ++ [.listMustSet 6 5 4]) = .panic ∧
+    brun [("a", .cont [("b", exOne)]), ("n", Node.null)] (exBOps ++ [.listMustSet "a.l" 5 exV]) = .panic ∧
+    Ytk.Heap.hrun exB (exHOps ++ [.listMustSet 6 0 4]) ≠ .panic ∧
+    brun [("a", .cont [("b", exOne)]), ("n", Node.null)] (exBOps ++ [.listMustSet "a.l" 0 exV]) ≠ .panic := by
+  decide +kernel
+
 end heap
 
 
